@@ -23,6 +23,7 @@ class SourceTree:
         self.root = root
         self.label = label
         self._asts = {}
+        self.renames = {}
 
     @classmethod
     def load(cls, root=None):
@@ -49,11 +50,13 @@ class SourceTree:
         return SourceTree(files, root=self.root, label=label)
 
     def ast(self, rel):
-        if rel not in self._asts:
-            try:
-                self._asts[rel] = ast.parse(self.files[rel], filename=rel)
-            except SyntaxError as e:
-                raise AnalysisError(f"{rel} does not parse: {e}")
+        if not self._asts:
+            for r in self.files:
+                try:
+                    self._asts[r] = ast.parse(self.files[r], filename=r)
+                except SyntaxError as e:
+                    raise AnalysisError(f"{r} does not parse: {e}")
+            self.renames = relocate_private_names(self._asts)
         return self._asts[rel]
 
     def digests(self):
@@ -68,3 +71,126 @@ class SourceTree:
             h.update(src.encode())
             h.update(b"\0")
         return h.hexdigest()[:16]
+
+
+# ---------------------------------------------------------------------------------------------------------------------
+# Anchor relocation.  Rules name private methods and functions of pycaption (`SCCReader._roll_up`, ...).  A refactoring that
+# only RENAMES such a routine (definition and every reference) leaves every property untouched but would make those anchors
+# vanish.  sa/spec/anchor_fingerprints.json (generated from the tree the rules were written against, tools/gen_fingerprints.py)
+# holds, per private routine, a digest of its body with all private names anonymised.  When a name of the table is missing
+# from its scope and exactly one routine of that scope that the table does not know has the same digest, the tree is read
+# with that routine under its old name (definition and references).  Nothing else is ever decided from the table: a
+# routine whose body changed as well is simply not found, and the rule that needs it refuses (exit 2) as before.
+def _private(name):
+    return name.startswith("_") and not (name.startswith("__") and name.endswith("__"))
+
+
+def fingerprint(fn):
+    import copy
+    g = copy.deepcopy(fn)
+    g.name = "_"
+    if g.body and isinstance(g.body[0], ast.Expr) and isinstance(g.body[0].value, ast.Constant) and isinstance(g.body[0].value.value, str):
+        g.body = g.body[1:] or [ast.Pass()]
+    for n in ast.walk(g):
+        if isinstance(n, ast.Attribute) and _private(n.attr):
+            n.attr = "_P"
+        elif isinstance(n, ast.Name) and _private(n.id):
+            n.id = "_P"
+    return hashlib.sha1(ast.dump(g, annotate_fields=False, include_attributes=False).encode()).hexdigest()[:20]
+
+
+def class_shape(cls):
+    """(digest of the whole class with private names anonymised, the private attribute / method names in order of first
+    occurrence): two classes with the same digest differ at most in the spelling of private names, position by position"""
+    import copy
+    names = []
+    for n in ast.walk(cls):
+        nm = n.attr if isinstance(n, ast.Attribute) else (n.name if isinstance(n, (ast.FunctionDef, ast.AsyncFunctionDef)) else None)
+        if nm is not None and _private(nm):
+            names.append(nm)
+    g = copy.deepcopy(cls)
+    for n in ast.walk(g):
+        if isinstance(n, ast.Attribute) and _private(n.attr):
+            n.attr = "_P"
+        elif isinstance(n, ast.Name) and _private(n.id):
+            n.id = "_P"
+        elif isinstance(n, (ast.FunctionDef, ast.AsyncFunctionDef)):
+            if _private(n.name):
+                n.name = "_P"
+            if n.body and isinstance(n.body[0], ast.Expr) and isinstance(n.body[0].value, ast.Constant) \
+                    and isinstance(n.body[0].value.value, str):
+                n.body = n.body[1:] or [ast.Pass()]
+    return hashlib.sha1(ast.dump(g, annotate_fields=False, include_attributes=False).encode()).hexdigest()[:20], names
+
+
+def scopes_of(tree):
+    """{scope name ('' = module level): {routine name: FunctionDef}}"""
+    out = {"": {}}
+    for st in tree.body:
+        if isinstance(st, (ast.FunctionDef, ast.AsyncFunctionDef)):
+            out[""][st.name] = st
+        elif isinstance(st, ast.ClassDef):
+            out[st.name] = {m.name: m for m in st.body if isinstance(m, (ast.FunctionDef, ast.AsyncFunctionDef))}
+    return out
+
+
+def relocate_private_names(asts):
+    path = os.path.join(os.path.dirname(os.path.dirname(os.path.abspath(__file__))), "spec", "anchor_fingerprints.json")
+    if not os.path.exists(path):
+        return {}
+    import json
+    table = json.load(open(path))
+    defined_anywhere = {}
+    for rel, tree in asts.items():
+        for scope, fns in scopes_of(tree).items():
+            for name in fns:
+                defined_anywhere.setdefault(name, []).append((rel, scope))
+    known_names = {name for rel_, scopes in table.items() if rel_ != "__classes__" for fns in scopes.values() for name in fns}
+    renames = {}          # new name -> (old name, rel, scope)
+    for rel, scopes in table.items():
+        if rel not in asts or rel == "__classes__":
+            continue
+        cur = scopes_of(asts[rel])
+        for scope, fns in scopes.items():
+            have = cur.get(scope)
+            if have is None:
+                continue
+            for old, fp in fns.items():
+                if old in have:
+                    continue
+                cands = [n for n, f in have.items() if _private(n) and n not in known_names and len(defined_anywhere.get(n, [])) == 1
+                         and fingerprint(f) == fp]
+                if len(cands) == 1 and cands[0] not in renames:
+                    renames[cands[0]] = (old, rel, scope)
+    # whole classes that differ from the table only in the spelling of private names (attributes included)
+    known_attrs = {n for cl in table.get("__classes__", {}).values() for c in cl.values() for n in c["names"]}
+    for rel, classes in table.get("__classes__", {}).items():
+        if rel not in asts:
+            continue
+        for st in asts[rel].body:
+            if isinstance(st, ast.ClassDef) and st.name in classes:
+                fp, names = class_shape(st)
+                ref = classes[st.name]
+                if fp != ref["fp"] or len(names) != len(ref["names"]) or names == ref["names"]:
+                    continue
+                pairs = {(a, b) for a, b in zip(names, ref["names"]) if a != b}
+                news = {a for a, _ in pairs}
+                if len(news) != len(pairs) or any(a in known_attrs or a in known_names for a in news) \
+                        or any(b in names for _, b in pairs):
+                    continue
+                for a, b in pairs:
+                    if a not in renames:
+                        renames[a] = (b, rel, st.name)
+    if not renames:
+        return {}
+    for rel, tree in asts.items():
+        for n in ast.walk(tree):
+            if isinstance(n, (ast.FunctionDef, ast.AsyncFunctionDef)) and n.name in renames:
+                n.name = renames[n.name][0]
+            elif isinstance(n, ast.Attribute) and n.attr in renames:
+                n.attr = renames[n.attr][0]
+            elif isinstance(n, ast.Name) and n.id in renames:
+                n.id = renames[n.id][0]
+            elif isinstance(n, ast.alias) and n.name in renames:
+                n.name = renames[n.name][0]
+    return {new: f"{rel}:{scope + '.' if scope else ''}{old}" for new, (old, rel, scope) in renames.items()}
